@@ -467,6 +467,11 @@ def cv_worker(job):
             if len(rs) == 1:
                 out['cp'] = graph_stages.cp_lines(rs[0], tx_fields(tx), var_field(tx, dict(idmap)),
                                                   dict(idmap), kw['cleavage_rule'], exc)
+                # function-level model of the third stage (Model/Translate.lean): the real graph
+                # `translate` found and the one it returned
+                tc = graph_stages.translate_case(rs[0], idmap)
+                if tc is not None:
+                    out['translate'] = tc
                 if opts.get('tvgbuild'):
                     # structural correspondence with the function-level model (Model/Tvg.lean)
                     tb = graph_stages.tvgbuild_case(rs[0], tx, tx_fields(tx), idmap)
